@@ -30,9 +30,18 @@ Published(op, got, want) ==
   \cup If(got.pt = want.pt, "new-publish-time")
   \cup If(ReceiptOf(got) = ReceiptOf(want), "receipt-reset")
 
+\* every line: each stored record is consistent in itself (receipt time only with a receipt and not before the
+\* publish time, no reason or receipt time without a receipt)
+Inconsistent(t) == If(\A k \in 1..Len(t.post) : RecordConsistent(ToSpec(t.post[k])), "version-publish-time-receipt-consistent")
+
 Fails(t) ==
   IF t.panic # "" THEN {"panic"}
-  ELSE
+  \* conc: the call was held by the stepped clock at its instant t.now while another client's call (logged as its own
+  \* line) was committed; t.pre = the publications when it was released, overtaken = that differs from what the call
+  \* started from.  An overtaken call may be refused, and then must change nothing; otherwise it is judged like
+  \* any call, on t.pre with its own instant.
+  ELSE IF t.conc /\ t.overtaken /\ t.err # "OK" THEN If(t.post = t.pre, "refused-call-changed-state")
+  ELSE Inconsistent(t) \cup
   LET pre == ToSpecState(t.pre)
       post == ToSpecState(t.post)
       w == [id |-> t.id, body |-> t.body, mt |-> t.mt, aud |-> t.aud]
